@@ -93,8 +93,40 @@ verif_alloc_should_fail(void)
     }
     return 0;
 }
+/* A fault point right after the extension allocated a Python object (a new
+ * node, a result container, a state tuple, a lazy sequence): when the
+ * countdown fires the object is dropped again and the allocation reported as
+ * failed, so the caller's own handling of a NULL result runs. */
+#define VERIF_OBJ_FAULT(VAR)                                    \
+    do {                                                        \
+        if ((VAR) != NULL && verif_alloc_should_fail())         \
+        {                                                       \
+            Py_DECREF((PyObject *)(VAR));                       \
+            (VAR) = NULL;                                       \
+            PyErr_NoMemory();                                   \
+        }                                                       \
+    } while (0)
+#define VERIF_OBJ_FAULT_GOTO(VAR, LABEL)                        \
+    do {                                                        \
+        VERIF_OBJ_FAULT(VAR);                                   \
+        if ((VAR) == NULL)                                      \
+            goto LABEL;                                         \
+    } while (0)
+/* ... and one in front of an allocation whose result could not simply be
+ * dropped again (its fields are not initialised yet). */
+#define VERIF_ALLOC_FAULT_RETURN(RET)                           \
+    do {                                                        \
+        if (verif_alloc_should_fail())                          \
+        {                                                       \
+            PyErr_NoMemory();                                   \
+            return RET;                                         \
+        }                                                       \
+    } while (0)
 #else
 #define VERIF_PROBE(I)
+#define VERIF_OBJ_FAULT(VAR)
+#define VERIF_OBJ_FAULT_GOTO(VAR, LABEL)
+#define VERIF_ALLOC_FAULT_RETURN(RET)
 #endif
 
 
